@@ -288,6 +288,9 @@ def rule_logspace(prog, rep):
     fs = None
     if t1[0] == "tuple" and len(t1[1]) == 2 and t1[1][1][0] == "call" and t1[1][1][1] == ("ext", "jax.numpy.sum"):
         fs = factors(dict(t1[1][1][3]).get("a"))
+        if fs is None:
+            from .bnaf import vector_factors
+            fs = vector_factors(dict(t1[1][1][3]).get("a"))     # the product carried forward as a vector (logsumexp is stable)
     if fs is None:
         rep.undecided("C18.logspace", site1, k1, f"log-det of the depth-1 network is not a recognised log-space product: "
                                                  f"{show(t1, 200)}")
